@@ -1,6 +1,6 @@
 """Ghost functions and their lemma instances (DESIGN 4.2).  Every lemma schema used here is a
 statement about finite sums / sorting / counting; the statements are listed in LEMMAS and the
-non-trivial ones are checked by Lean in lemmas/Lemmas.lean (same statement, by hand transcription).
+non-trivial ones are checked by Lean in lemmas/Sums.lean (same statement, by hand transcription; run by the check of every property that uses them).
 Instances are generated per application (and per pair of applications for congruence): the
 solver never sees a quantifier over arrays."""
 import z3
@@ -37,14 +37,28 @@ def sum1(E, arr, node=None):
     if key in cache:
         return cache[key]
     fs = arr.snapshot()
+    flagged = arr.cell.nan is not None
+    masked = flagged and getattr(arr.cell, "masked", False)
+    from .values import NanReal
     if isinstance(arr.shape[0], int):
         # concrete length (finite-scope pass, differential self-test): the sum is computed, not axiomatised
         tot = z3.RealVal(0)
+        flags = []
         for j in range(arr.shape[0]):
             v = fs.get(j)
             v = z3.If(v, z3.RealVal(1), z3.RealVal(0)) if z3.is_bool(v) else (z3.ToReal(v) if z3.is_int(v) else v)
+            if flagged:
+                flags.append(zbool(fs.isnan(j)))
+                if masked:
+                    v = z3.If(flags[-1], z3.RealVal(0), v)
             tot = tot + v
-        cache[key] = z3.simplify(tot)
+        tot = z3.simplify(tot)
+        if flagged:
+            # numpy.ma: the sum of the unmasked cells, `masked` when there is none; plain arrays: NaN as soon as one cell is NaN
+            flag = z3.simplify(z3.And(*flags) if masked else z3.Or(*flags)) if flags else z3.BoolVal(bool(masked))
+            if not z3.is_false(flag):
+                tot = NanReal(tot, flag)
+        cache[key] = tot
         return cache[key]
     n = z(arr.shape[0])
     i = z3.Int(fresh_name("sx"))
@@ -53,8 +67,16 @@ def sum1(E, arr, node=None):
         body = z3.ToReal(body)
     if z3.is_bool(body):
         body = z3.If(body, z3.RealVal(1), z3.RealVal(0))
+    if masked:
+        body = z3.If(zbool(fs.isnan(i)), z3.RealVal(0), body)
     a = z3.Lambda([i], body)
-    cache[key] = sum_term(E, a, n)
+    S = sum_term(E, a, n)
+    if flagged:
+        q = z3.Int(fresh_name("sq"))
+        inb = z3.And(q >= 0, q < n)
+        flag = z3.ForAll([q], z3.Implies(inb, zbool(fs.isnan(q)))) if masked else z3.Exists([q], z3.And(inb, zbool(fs.isnan(q))))
+        S = NanReal(S, flag)
+    cache[key] = S
     return cache[key]
 
 
@@ -115,6 +137,17 @@ def install(R):
             return sum1(E, a)
         if a.ndim == 2 and axis == 1:
             return row_reduce(E, a, "sum")
+        if a.ndim == 2 and axis == 0 and a.cell.nan is None:
+            # column sums: one ghost function per reduction, ColSum_k(c) := Sum(i -> a[i,c], rows); only its sign lemma is instantiated
+            fs = a.snapshot()
+            f = z3.Function(fresh_name("ColSum"), z3.IntSort(), z3.RealSort())
+            c, i = z3.Int(fresh_name("cc")), z3.Int(fresh_name("ci"))
+            rows, cols = z(a.shape[0]), z(a.shape[1])
+            val = lambda r, col: z3.ToReal(fs.get(r, col)) if z3.is_int(fs.get(r, col)) else fs.get(r, col)
+            E.axiom(z3.ForAll([c], z3.Implies(z3.And(c >= 0, c < cols, z3.ForAll([i], z3.Implies(z3.And(i >= 0, i < rows), val(i, c) >= 0))), f(c) >= 0),
+                              patterns=[f(c)]), requested=False)
+            E.used_lemmas.add("sum_nonneg")
+            return NdArr.from_fn("colsum", (a.shape[1],), "real", lambda col: f(col))
         raise Unsupported("numpy.sum rank %d axis %r" % (a.ndim, axis))
     R.np_sum = np_sum
 
@@ -139,6 +172,19 @@ def install(R):
             return row_reduce(E, a, "mean")
         raise Unsupported("numpy.mean rank %d axis %r" % (a.ndim, axis))
     R.np_mean = np_mean
+
+    def np_average(E, a, axis=None, weights=None, **kw):
+        """numpy.average(a, weights=w) of vectors: Sum(a*w) / Sum(w) (ZeroDivisionError when the weights sum to zero); the mean without weights"""
+        if weights is None:
+            return np_mean(E, a, axis)
+        if not (isinstance(a, NdArr) and isinstance(weights, NdArr) and a.ndim == 1 and weights.ndim == 1 and axis in (None, 0)):
+            raise Unsupported("numpy.average of %r with weights %r" % (a, weights))
+        from .npmodel import arr_map as _arr_map
+        prod = _arr_map(E, lambda x, y: x * y, [a, weights], "real")
+        den = sum1(E, weights)
+        E.safety("average-weights-sum", z(den) != 0, None, "ZeroDivisionError")
+        return sum1(E, prod) / den
+    R.fns["numpy.average"] = np_average
 
     def np_sort(E, a, axis=-1, **kw):
         if not isinstance(a, NdArr) or a.ndim != 1:
